@@ -268,8 +268,93 @@ fn binary_multi_file(out: &mut Out, rng: &mut Rng, thorough: bool) {
 	let _ = std::fs::remove_dir_all(&dir);
 }
 
+/// Inputs that more than one format accepts, given WITHOUT a format right after
+/// an input of another kind, through one `Translator`: each input is detected
+/// and translated on its own — what came before must not matter.
+fn ambiguous_followers(out: &mut Out) {
+	use crate::xtapi::{translate, translate_many};
+	let firsts: Vec<(&str, Vec<u8>)> = vec![
+		("toml", b"a = 1\n".to_vec()),
+		("toml-table", b"[t]\nk = \"v\"\n".to_vec()),
+		("yaml", b"k: v\n".to_vec()),
+		("yaml-seq", b"- 1\n- two\n".to_vec()),
+		("json", b"{\"j\": 1}\n".to_vec()),
+		("json-stream", b"[1]\n[2]\n".to_vec()),
+		("msgpack", b"\x81\xa1m\x01".to_vec()),
+	];
+	// a MessagePack array 16 of 97 small ints that is also UTF-16LE text
+	let mut mp_utf16 = vec![0xdc, 0x00, 0x61];
+	mp_utf16.extend_from_slice(&[0x00, 0x3a, 0x00, 0x20, 0x00, 0x31, 0x00, 0x0a, 0x00]);
+	mp_utf16.extend(std::iter::repeat(0x00u8).take(97 - 9));
+	let followers: Vec<(&str, Vec<u8>)> = vec![
+		("[1]", b"[1]".to_vec()),
+		("[\"x\"]", b"[\"x\"]\n".to_vec()),
+		("[a]", b"[a]\n".to_vec()),
+		("[1.5]", b"[1.5]\n".to_vec()),
+		("json lines", b"[1]\n[2]\n".to_vec()),
+		("-0", b"-0".to_vec()),
+		("{\"a\": -0}", b"{\"a\": -0}\n".to_vec()),
+		("2^64", b"[18446744073709551616]\n".to_vec()),
+		("NEL in string", b"[\"a\xc2\x85b\"]\n".to_vec()),
+		("1e400", b"[1e400]".to_vec()),
+		("012", b"{\"a\": 012}".to_vec()),
+		("yes", b"{\"a\": yes}\n".to_vec()),
+		("a = 1", b"a = 1\n".to_vec()),
+		("{}", b"{}".to_vec()),
+		("msgpack/utf16", mp_utf16),
+		("fixarray", b"\x91\x01".to_vec()),
+	];
+	for to in STREAM_FMTS {
+		for (fname, first) in &firsts {
+			let first_alone = translate(first, &Supply::Slice, None, to);
+			for (gname, follower) in &followers {
+				for supply in [Supply::Slice, Supply::Reader(vec![]), Supply::Reader(vec![1])] {
+					let follower_alone = translate(follower, &supply, None, to);
+					for chain in [vec![first, follower], vec![first, follower, first], vec![follower, first, follower]] {
+						let inputs: Vec<(Vec<u8>, Supply, Option<Fmt>)> = chain.iter().map(|b| ((*b).clone(), supply.clone(), None)).collect();
+						let (results, output) = translate_many(&inputs, to);
+						// expected: each input as if it were alone, up to the first failure
+						let mut expected = vec![];
+						let mut expect_ok = vec![];
+						for b in &chain {
+							let alone = if std::ptr::eq(*b, first) { &first_alone } else { &follower_alone };
+							// `first_alone` was taken from a slice; the verdict and output of a
+							// single input do not depend on the supply (C02) for these inputs
+							expect_ok.push(alone.ok());
+							expected.extend_from_slice(&alone.output);
+							if !alone.ok() {
+								break;
+							}
+						}
+						out.eval("input_independent_of_predecessor", &format!("{fname}/{gname}/{}/{}/{}", to.name(), supply.describe(), chain.len()), true);
+						let got_ok: Vec<bool> = results.iter().map(|r| r.is_ok()).collect();
+						let comparable = expect_ok.iter().all(|b| *b);
+						if (comparable && (output != expected || got_ok.iter().any(|b| !*b))) || (!comparable && got_ok.iter().zip(&expect_ok).any(|(a, b)| a != b)) {
+							out.fail(
+								"concat_of_singles",
+								"",
+								format!(
+									"to={} one Translator, inputs without a format [{}] ({}): output {} results {:?}; each input alone gives {} (ok: {:?})",
+									to.name(),
+									chain.iter().map(|b| hex(b)).collect::<Vec<_>>().join(" ; "),
+									supply.describe(),
+									hex(&output),
+									got_ok,
+									hex(&expected),
+									expect_ok
+								),
+							);
+						}
+					}
+				}
+			}
+		}
+	}
+}
+
 pub fn run(out: &mut Out, rng: &mut Rng, thorough: bool) {
 	binary_multi_file(out, &mut rng.fork(), thorough);
+	ambiguous_followers(out);
 	let n = if thorough { 2500 } else { 260 };
 	for i in 0..n {
 		let to = STREAM_FMTS[i % 3];
